@@ -41,6 +41,26 @@ def check(case):
     return res
 
 
+def _hill_value(M, entry):
+    """A propensity entry is a number or the name of a model parameter (current value of the model object)."""
+    return float(M.get_parameter_dictionary()[entry]) if isinstance(entry, str) else float(entry)
+
+
+def _hill_recorded_deviation(M, rx, state):
+    """Value of the Hill kinetic law as the pinned exporter writes it (known finding): k [d] s^n / (s^n + K) for the
+    positive forms, k [d] / (s^n + K) for the negative ones."""
+    pd = rx["pd"]
+    try:
+        k, K, n = _hill_value(M, pd["k"]), _hill_value(M, pd["K"]), _hill_value(M, pd["n"])
+        sn = float(state[pd["s1"]]) ** n
+        v = k * sn / (sn + K) if "positive" in rx["type"] else k / (sn + K)
+        if rx["type"].startswith("proportional"):
+            v *= float(state[pd["d"]])
+        return float(v)
+    except (ZeroDivisionError, OverflowError, ValueError, TypeError, KeyError):
+        return None
+
+
 def _verify(case, M, res, phase):
     import libsbml
     sp, stochastic = case["spec"], case["stochastic"]
@@ -92,14 +112,21 @@ def _verify(case, M, res, phase):
         local = {p.getId(): p.getValue() for p in kl.getListOfParameters()}
         ids = sbmlmath.identifiers(kl.getMath())
         undefined = sorted(i for i in ids if i not in species_ids and i not in gparams and i not in local)
+        n_bound = None
         if undefined:
             res.fail(("undefined_identifier", tag, flavour), reaction=j, undefined=undefined,
                      formula=libsbml.formulaToL3String(kl.getMath()))
-            continue
+            if not (typ in ref.HILL_TYPES and undefined == ["n"] and "n" not in species_ids):
+                continue
+            # the recorded finding (a literal `n` in the Hill numerator) would otherwise end the search for this law: go on
+            # with `n` read as the Hill exponent, and hold the law to "the model's rate, or exactly the recorded deviation"
+            n_bound = _hill_value(M, rx["pd"]["n"])
         for st_ in case["states"]:
             env = dict(gparams)
             env.update(local)
             env.update(st_)
+            if n_bound is not None:
+                env["n"] = n_bound
             x = specmod.state_vector(M, st_)
             own = props[j].py_verif_stochastic_propensity(x, pvals, 0.0) if stochastic else props[j].py_get_propensity(x, pvals, 0.0)
             try:
@@ -111,6 +138,17 @@ def _verify(case, M, res, phase):
             # purely relative: a rate constant of 1e-14 is as good a rate constant as 1 (both sides evaluate the same
             # formula in double precision; they differ by a few ulp of libm pow at most)
             if abs(got - own) > 1e-9 * max(abs(own), abs(got)) + 1e-300:
+                if typ in ref.HILL_TYPES:
+                    # the recorded deviation of the Hill laws is one specific formula (K where the rate has K^n, no K^n in
+                    # the numerator of the negative forms); any other value is a different fault of the same law
+                    dev = _hill_recorded_deviation(M, rx, st_)
+                    if dev is None or not math.isfinite(dev) or abs(got - dev) > 1e-9 * max(abs(dev), abs(got)) + 1e-300:
+                        res.fail(("kinetic_law_other_deviation", tag, flavour), phase=phase or "first_export", reaction=j,
+                                 state=st_, got=got, own_rate=own, recorded_deviation=dev,
+                                 formula=libsbml.formulaToL3String(kl.getMath()), rxn=rx)
+                        break
+                    if n_bound is not None:
+                        continue          # (already reported above, as the undefined identifier of this law)
                 res.fail(("kinetic_law_value", tag, flavour), phase=phase or "first_export", reaction=j, state=st_, got=got, own_rate=own,
                          formula=libsbml.formulaToL3String(kl.getMath()), rxn=rx)
                 break
